@@ -144,7 +144,7 @@ class Sched(object):
         if kind == "wait":
             # threading.Event.wait returns once a set() has notified the waiter, even if the flag was cleared
             # again before the waiter ran (Condition semantics)
-            return obj.flag or (ts is not None and ts.tid in obj.released)
+            return obj.flag or (ts is not None and (ts.tid in obj.released or ts.tid in getattr(obj, "timed", ())))
         if kind == "join":
             return obj.ts is None or obj.ts.done
         if kind == "spawning":
@@ -163,6 +163,14 @@ class Sched(object):
                 if not live:
                     return "done"
                 en = [t for t in live if t.pending is not None and self.enabled(t.pending, t)]
+
+                def only_by_timeout(t):
+                    k, o = t.pending
+                    return k == "wait" and not o.flag and t.tid not in o.released and t.tid in getattr(o, "timed", ())
+                # a time-out fires when nothing else can run (time passes for a system that is otherwise quiet):
+                # a polling loop cannot starve the threads it is polling for
+                if any(not only_by_timeout(t) for t in en):
+                    en = [t for t in en if not only_by_timeout(t)]
                 if not en:
                     self.deadlock = [(t.name, _opname(t.pending)) for t in live]
                     self._abort_locked()
@@ -269,6 +277,7 @@ def make_threading(sched_ref):
             self.label = "event?"
             self._sets = 0
             self.released = set()       # tids of waiters notified by a set() while they were parked in wait()
+            self.timed = set()          # tids of waiters that gave a time-out
             self.s = sched_ref[0]
 
         def _ann(self, kind):
@@ -296,18 +305,46 @@ def make_threading(sched_ref):
         isSet = is_set
 
         def wait(self, timeout=None):
-            self._ann("wait")
             me = self.s.me() if sched_ref[0] is self.s else None
+            if me is not None and timeout is not None:
+                self.timed.add(me.tid)          # a wait with a time-out may always return (with the flag's value)
+            self._ann("wait")
             if me is not None:
+                woken = self.flag or me.tid in self.released
                 self.released.discard(me.tid)
-            return True if me is not None else self.flag
+                self.timed.discard(me.tid)
+                return True if timeout is None else bool(woken)
+            return self.flag
 
     class Thread(object):
-        def __init__(self, *a, **k):
+        _count = [0]
+
+        def __init__(self, group=None, target=None, name=None, args=(), kwargs=None, daemon=None):
             self.ts = None
-            self.daemon = False
+            self.daemon = bool(daemon)
             self.label = "thread?"
             self._started = False
+            self._target, self._args, self._kwargs = target, tuple(args), dict(kwargs or {})
+            Thread._count[0] += 1
+            self.name = name or "Thread-%d" % Thread._count[0]
+
+        @property
+        def ident(self):
+            return None if self.ts is None else 1000 + self.ts.tid
+
+        native_id = ident
+
+        def getName(self):
+            return self.name
+
+        def setName(self, name):
+            self.name = name
+
+        def isDaemon(self):
+            return self.daemon
+
+        def setDaemon(self, flag):
+            self.daemon = bool(flag)
 
         def start(self):
             s = sched_ref[0]
@@ -316,7 +353,8 @@ def make_threading(sched_ref):
             self.ts = s.spawn(self.label, self.run)
 
         def run(self):
-            pass
+            if self._target is not None:
+                self._target(*self._args, **self._kwargs)
 
         def join(self, timeout=None):
             if self.ts is not None and self.ts in sched_ref[0].order:
@@ -327,9 +365,75 @@ def make_threading(sched_ref):
 
         isAlive = is_alive
 
+    class Condition(object):
+        """threading.Condition over a shim lock; wait() parks on a private shim Event that notify() sets."""
+        def __init__(self, lock=None):
+            self._lock = lock if lock is not None else RLock()
+            self._ev = Event()
+            self._ev._sets = 1           # (every set() of this private event is a visible operation)
+            self.acquire, self.release = self._lock.acquire, self._lock.release
+
+        def __enter__(self):
+            self._lock.acquire()
+            return self
+
+        def __exit__(self, *a):
+            self._lock.release()
+
+        def wait(self, timeout=None):
+            self._ev.flag = False
+            self._lock.release()
+            try:
+                return self._ev.wait(timeout)
+            finally:
+                self._lock.acquire()
+
+        def wait_for(self, predicate, timeout=None):
+            while not predicate():
+                if not self.wait(timeout) and timeout is not None:
+                    return predicate()
+            return True
+
+        def notify(self, n=1):
+            self._ev.set()
+
+        def notify_all(self):
+            self._ev.set()
+
+        notifyAll = notify_all
+
+    class Semaphore(object):
+        def __init__(self, value=1):
+            self._value = value
+            self._cond = Condition(Lock())
+
+        def acquire(self, blocking=True, timeout=None):
+            with self._cond:
+                while self._value == 0:
+                    if not blocking:
+                        return False
+                    self._cond.wait(timeout)
+                self._value -= 1
+                return True
+
+        def release(self, n=1):
+            with self._cond:
+                self._value += n
+                self._cond.notify_all()
+
+        __enter__ = acquire
+
+        def __exit__(self, *a):
+            self.release()
+
     mod = types.ModuleType("threading")
     mod.Lock = Lock
     mod.RLock = RLock
+    mod.Condition = Condition
+    mod.Semaphore = mod.BoundedSemaphore = Semaphore
+    mod.local = _real.local
+    mod.main_thread = getattr(_real, 'main_thread', None)
+    mod.get_ident = lambda: (1000 + sched_ref[0].me().tid) if sched_ref[0].me() else 0
     mod.Event = Event
     mod.Thread = Thread
     mod.ThreadError = RuntimeError
@@ -470,7 +574,8 @@ class Harness(object):
         # pyaudio / _portaudio are imported lazily by the library at run time: keep the fakes registered
         self.mod = mod
         self.shim = shim
-        if mod.threading is not shim:
+        # (either `import threading` or `from threading import Thread, ...`)
+        if getattr(mod, "threading", shim) is not shim or getattr(mod, "Thread", shim.Thread) is not shim.Thread:
             raise RuntimeError("lazy_io did not pick up the shim threading module")
 
     def new_run(self, choose, max_steps=4000, on_step=None, fine=False):
